@@ -167,3 +167,150 @@ Example C17_ex_timeout_never_after_terminal :
   timed_emits 0 (simulate (x_timeout (Rel 10) false 0) 0 (ext_of (tevents [(5, 1)] (TTDone 15))))
   = [(5, Next 1); (15, Done)].
 Proof. vm_compute. reflexivity. Qed.
+
+(* ==== added after the theorem-quality audit (proofs: Ops/TimedWindowFacts2.v) ==== *)
+From RxVerif Require Import Ops.TimedSubFacts Ops.TimedWindowFacts2.
+
+(* timeout with a fallback over a TWO-port closed world ([ext2_of]: port 0 the
+   source, port 1 the fallback observable).  For EVERY interleaving:
+   [timeout2_spec] walks the timeline with the running due instant -- up to and
+   at it a source element is forwarded and re-arms the timer, a source terminal
+   ends the sequence, a fallback notification is not heard (the fallback is not
+   subscribed yet); at the first notification later than it the operator
+   switches and the output continues with the fallback's notifications from
+   that position on, up to and including its first terminal -- the source's
+   notifications from there on are ignored. *)
+Theorem C17_timeout_fallback_walk : forall A ts t0 (ins : list (Z * nat * ev A)),
+  timed_emits t0 (simulate (x_timeout ts true t0) t0 (ext2_of ins)) = timeout2_spec ts (due_at ts t0) ins.
+Proof. exact @timeout_fallback_walk. Qed.
+Print Assumptions C17_timeout_fallback_walk.
+
+(* both ports on one time-sorted timeline: before the switch instant d the
+   source's part as [timeout_spec] gives it; after it EXACTLY the fallback's
+   notifications later than d (elements, error, completion), nothing of the
+   source.  A fallback notification at the instant d itself comes before the
+   timer in the closed world and is not heard. *)
+Theorem C17_timeout_mirrors_fallback : forall A ts t0 (ins : list (Z * nat * ev A)), tsorted2 ins ->
+  timed_emits t0 (simulate (x_timeout ts true t0) t0 (ext2_of ins))
+  = fst (timeout_spec ts (due_at ts t0) (port 0 ins))
+    ++ match snd (timeout_spec ts (due_at ts t0) (port 0 ins)) with
+       | Some d => upto_term (filter (fun te => d <? fst te) (port 1 ins))
+       | None => []
+       end.
+Proof. exact @timeout_mirrors_fallback. Qed.
+Print Assumptions C17_timeout_mirrors_fallback.
+
+(* skip_last_with_time(d) WITH the instants, time-sorted elements, any terminal
+   at any instant: every element is emitted at the first notification instant --
+   its own, a later element's, or the completion's -- at which its age reached d
+   ([sl_out]); an error passes and the elements still queued are dropped (it
+   flushes nothing: [done_time (TTErr _ _) = []]); without a terminal likewise. *)
+Theorem C17_skip_last_with_time_instants : forall A t0 d (tl : list (Z * A)) tm, tsorted tl ->
+  timed_emits t0 (simulate (x_skip_last_with_time d) t0 (ext_of (tevents tl tm)))
+  = sl_out d tl tm ++ term_ev tm.
+Proof. exact @skip_last_with_time_instants. Qed.
+Print Assumptions C17_skip_last_with_time_instants.
+
+(* [sl_out], one element at a time *)
+Theorem C17_skip_last_out_unfold : forall A d t (x : A) rest tm,
+  sl_out d ((t, x) :: rest) tm
+  = match find (fun u => d <=? u - t) (t :: map fst rest ++ match tm with TTDone T => [T] | _ => [] end) with
+    | Some u => [(u, Next x)]
+    | None => []
+    end ++ sl_out d rest tm.
+Proof. exact @sl_out_unfold. Qed.
+Print Assumptions C17_skip_last_out_unfold.
+
+(* the window boundary: whatever is emitted had reached age d at the emission instant *)
+Theorem C17_skip_last_with_time_only_aged : forall A t0 d (tl : list (Z * A)) tm u x, tsorted tl ->
+  In (u, Next x) (timed_emits t0 (simulate (x_skip_last_with_time d) t0 (ext_of (tevents tl tm)))) ->
+  exists t, In (t, x) tl /\ d <= u - t /\ In u (map fst tl ++ done_time tm).
+Proof. exact @skip_last_with_time_only_aged. Qed.
+Print Assumptions C17_skip_last_with_time_only_aged.
+
+(* timeout with an ABSOLUTE due time D in closed form (time-sorted
+   notifications, none before the subscription): every element re-arms the timer
+   for the same instant max t0 D, so the notifications up to and at it pass and
+   the switch happens exactly there unless the source terminated by then *)
+Theorem C17_timeout_abs_closed_form : forall A D t0 (es : list (Z * ev A)), tsorted es ->
+  Forall (fun te => t0 <= fst te) es ->
+  timeout_spec (Abs D) (due_at (Abs D) t0) es =
+  let k := filter (fun te => fst te <=? Z.max t0 D) es in
+  (upto_term k, if has_term k then None else Some (Z.max t0 D)).
+Proof. exact @timeout_abs_closed_form. Qed.
+Print Assumptions C17_timeout_abs_closed_form.
+
+Theorem C17_timeout_abs_no_fallback : forall A D t0 (es : list (Z * ev A)), tsorted es ->
+  Forall (fun te => t0 <= fst te) es ->
+  timed_emits t0 (simulate (x_timeout (Abs D) false t0) t0 (ext_of es)) =
+  let k := filter (fun te => fst te <=? Z.max t0 D) es in
+  upto_term k ++ (if has_term k then [] else [(Z.max t0 D, Err TIMEOUT_ERR)]).
+Proof. exact @timeout_abs_no_fallback. Qed.
+Print Assumptions C17_timeout_abs_no_fallback.
+
+Theorem C17_timeout_abs_mirrors_fallback : forall A D t0 (ins : list (Z * nat * ev A)), tsorted2 ins ->
+  Forall (fun y => t0 <= fst (fst y)) ins ->
+  timed_emits t0 (simulate (x_timeout (Abs D) true t0) t0 (ext2_of ins)) =
+  let k := filter (fun te => fst te <=? Z.max t0 D) (port 0 ins) in
+  upto_term k ++ (if has_term k then [] else upto_term (filter (fun te => Z.max t0 D <? fst te) (port 1 ins))).
+Proof. exact @timeout_abs_mirrors_fallback. Qed.
+Print Assumptions C17_timeout_abs_mirrors_fallback.
+
+(* the hypothesis "none before the subscription" is needed: an element before t0
+   re-arms an absolute timer that lies in the past for ITS OWN instant *)
+Example C17_timeout_abs_closed_form_needs_lower_bound_refuted :
+  timeout_spec (Abs 0) (due_at (Abs 0) 5) [(1, Next 7); (3, Next 8)] = ([(1, Next 7)], Some 1)
+  /\ timeout_spec (Abs 0) (due_at (Abs 0) 5) [(1, Next 7); (3, Next 8)]
+     <> (let k := filter (fun te : Z * ev Z => fst te <=? Z.max 5 0) [(1, Next 7); (3, Next 8)] in
+         (upto_term k, if has_term k then None else Some (Z.max 5 0))).
+Proof. vm_compute. split; [reflexivity|discriminate]. Qed.
+
+(* ---- non-vacuity / worked instances ---- *)
+Example C17_ex_two_port_sorted :
+  tsorted2 [(5, 0%nat, Next 1); (8, 1%nat, Next 7); (15, 1%nat, Next 8); (20, 1%nat, Next 9);
+            (22, 0%nat, Next 2); (25, 1%nat, Done); (30, 1%nat, Next 3)].
+Proof. cbn. repeat split; repeat constructor; cbn; lia. Qed.
+
+(* switch at 5 + 10 = 15: the fallback's notifications at 8 and AT 15 are not
+   heard, the source's element at 22 is ignored, nothing after the fallback's completion *)
+Example C17_ex_timeout_mirrors_fallback :
+  timed_emits 0 (simulate (x_timeout (Rel 10) true 0) 0
+    (ext2_of [(5, 0%nat, Next 1); (8, 1%nat, Next 7); (15, 1%nat, Next 8); (20, 1%nat, Next 9);
+              (22, 0%nat, Next 2); (25, 1%nat, Done); (30, 1%nat, Next 3)]))
+  = [(5, Next 1); (20, Next 9); (25, Done)].
+Proof. vm_compute. reflexivity. Qed.
+
+Example C17_ex_timeout_mirrors_fallback_error :
+  timed_emits 0 (simulate (x_timeout (Rel 10) true 0) 0
+    (ext2_of [(5, 0%nat, Next 1); (20, 1%nat, Next 9); (21, 1%nat, Err 4); (22, 1%nat, Next 3)]))
+  = [(5, Next 1); (20, Next 9); (21, Err 4)].
+Proof. vm_compute. reflexivity. Qed.
+
+(* the source terminates first: the fallback is never heard *)
+Example C17_ex_timeout_no_switch :
+  timed_emits 0 (simulate (x_timeout (Rel 10) true 0) 0
+    (ext2_of [(5, 0%nat, Next 1); (8, 1%nat, Next 7); (12, 0%nat, Done); (40, 1%nat, Next 9)]))
+  = [(5, Next 1); (12, Done)].
+Proof. vm_compute. reflexivity. Qed.
+
+(* skip_last_with_time(10): 1 (arrived at 0) leaves at the element at 10, 0 (at 10) at the
+   completion at 20; 3 (at 15) never; with an error at 20 instead, 0 is dropped as well *)
+Example C17_ex_skip_last_instants :
+  sl_out 10 [(0, 1); (10, 0); (15, 3)] (TTDone 20) ++ term_ev (TTDone 20) = [(10, Next 1); (20, Next 0); (20, Done)]
+  /\ sl_out 10 [(0, 1); (10, 0); (15, 3)] (TTErr 20 4) ++ term_ev (TTErr 20 4) = [(10, Next 1); (20, Err 4)]
+  /\ sl_out 10 [(0, 1); (10, 0); (15, 3)] TTNever ++ term_ev TTNever = [(10, Next 1)].
+Proof. vm_compute. repeat split; reflexivity. Qed.
+
+Example C17_ex_skip_last_error :
+  timed_emits 0 (simulate (x_skip_last_with_time 10) 0 (ext_of (tevents [(0, 1); (10, 0); (15, 3)] (TTErr 20 4))))
+  = [(10, Next 1); (20, Err 4)].
+Proof. vm_compute. reflexivity. Qed.
+
+(* absolute due time 12, subscription at 0: elements at 5 and 12 pass (neither moves the
+   timer), switch at 12; due time in the past (subscription at 20): switch at 20 *)
+Example C17_ex_timeout_abs :
+  timed_emits 0 (simulate (x_timeout (Abs 12) false 0) 0 (ext_of (tevents [(5, 1); (12, 0); (13, 2)] (TTDone 40))))
+  = [(5, Next 1); (12, Next 0); (12, Err TIMEOUT_ERR)]
+  /\ timed_emits 20 (simulate (x_timeout (Abs 12) false 20) 20 (ext_of (tevents [(21, 1); (22, 2)] (TTDone 40))))
+  = [(20, Err TIMEOUT_ERR)].
+Proof. vm_compute. split; reflexivity. Qed.
